@@ -15,6 +15,12 @@ def suiteClasses : List (String × List String) := [
                   "Geocentric", "AuxLatitude", "NormalGravity", "LambertConformalConic", "AlbersEqualArea", "OSGB", "UTMUPS", "MGRS"]),
   ("Geodesic", ["Geodesic", "GeodesicLine"]), ("GeodesicExact", ["GeodesicExact", "GeodesicLineExact", "DST", "kissfft"]),
   ("GeodesicLine", ["GeodesicLine"]), ("GeodesicLineExact", ["GeodesicLineExact"]),
+  -- area computations on strongly eccentric ellipsoids (f = 3/4, -2, 9/10: DST size N = 48, 48, 96 > 32), on one shared solver / lines of
+  -- one shared solver; `Geodesic(exact)` = the wrapper class constructed with `exact = true`, which delegates to its GeodesicExact member
+  ("GeodesicExact(eccentric)", ["GeodesicExact", "GeodesicLineExact", "DST", "kissfft"]),
+  ("GeodesicLineExact(eccentric)", ["GeodesicLineExact", "GeodesicExact", "DST", "kissfft"]),
+  ("Geodesic(exact)", ["Geodesic", "GeodesicLine", "GeodesicExact", "GeodesicLineExact", "DST", "kissfft"]),
+  ("GeodesicLine(exact)", ["GeodesicLine", "Geodesic", "GeodesicLineExact", "GeodesicExact", "DST", "kissfft"]),
   ("Rhumb", ["Rhumb", "RhumbLine", "AuxLatitude", "DAuxLatitude"]), ("Rhumb(exact)", ["Rhumb", "RhumbLine", "AuxLatitude", "DAuxLatitude"]),
   ("RhumbLine", ["RhumbLine"]), ("TransverseMercator", ["TransverseMercator"]), ("TransverseMercatorExact", ["TransverseMercatorExact"]),
   ("PolarStereographic", ["PolarStereographic"]), ("LambertConformalConic", ["LambertConformalConic"]), ("AlbersEqualArea", ["AlbersEqualArea"]),
